@@ -411,3 +411,10 @@ KEEP += [
                      (Y, "    /// Parses angles from strings in degrees format or plain floats.", "    /// Five entries are padded to six, any other length but six is an error\n    fn six<T: Copy + std::fmt::Debug>(mut values: Vec<T>, fill: T) -> Result<[T; 6], ParameterError> {\n        if values.len() == 5 {\n            values.push(fill);\n        }\n        if values.len() != 6 {\n            return Err(ParameterError::InvalidLength {\n                expected: 6,\n                found: values.len(),\n            });\n        }\n        let array: [T; 6] = values.try_into().unwrap(); // length is 6 here\n        Ok(array)\n    }\n\n    /// Parses angles from strings in degrees format or plain floats.", False)],
      None, ['C19'], 'padding and length check of both array readers extracted into one generic helper'),
 ]
+
+KEEP += [
+    ('K105', None, [(P, "impl Kinematics for Parallelogram {", "impl Parallelogram {\n    /// Joint values as seen by the wrapped robot: the coupled joint is adjusted based on the driven joint\n    fn decoupled(&self, qs: &Joints) -> Joints {\n        let mut joints = *qs;\n        joints[self.coupled] -= self.scaling * joints[self.driven];\n        joints\n    }\n}\n\nimpl Kinematics for Parallelogram {", False),
+                    (P, "        let mut joints = *qs;\n        // Adjusting coupled joint based on driven joint in forward kinematics\n        joints[self.coupled] -= self.scaling * joints[self.driven]; \n        self.robot.forward(&joints)", "        self.robot.forward(&self.decoupled(qs))", False),
+                    (P, "        let mut joints = *joints; \n        // Adjusting coupled joint based on driven joint in forward kinematics\n        joints[self.coupled] -= self.scaling * joints[self.driven]; \n        self.robot.forward_with_joint_poses(&joints)", "        self.robot.forward_with_joint_poses(&self.decoupled(joints))", False)],
+     None, ['C16'], 'the forward pre-map of both forward methods extracted into one helper'),
+]
